@@ -21,7 +21,7 @@ from simkit.rng import seed_globals  # noqa: E402
 from simkit.world import Violation, result  # noqa: E402
 
 PROPERTY = "C06"
-RUNS = {"quick": 3000, "thorough": 200_000}
+RUNS = {"quick": 4000, "thorough": 200_000}
 WALL = {"quick": 45, "thorough": 1500}
 BATCH = {"quick": 25, "thorough": 200}
 SELFTEST_RUNS = 8
@@ -29,17 +29,21 @@ SHRINK_SKIP = ("klass", "allow")
 SHRINK_BUDGET_S = {"quick": 40.0, "thorough": 120.0}
 CAP = 20_000
 
-TRIGGERS = ("overlap", "inflight", "server", "precancel", "capbusy", "capwait")
+# scenario features that still lead to a *recorded* defect; everything else (overlapping windows of every other
+# kind, generator/holder targets with processes in flight, cancel before construction, contention inside a capacity
+# window) is part of the general classes since the corresponding fixes were committed (checks/c06.fixed.json)
+TRIGGERS = ("server", "capbusy", "capoverlap")
 
 RULE = (
     "each case is a generated probe model (1-4 node targets among plain handler / generator handler with in-flight "
     "processes / repo Server behind its queue / holder of a repo Resource, each with an identical-traffic twin; an "
     "optional 2-3 node Network plus twin Network with a tagged probe on every link every delta) and a generated repo "
-    "FaultSchedule of 0-8 CrashNode/PauseNode/NetworkPartition(sym/asym)/InjectLatency/InjectPacketLoss/ReduceCapacity "
-    "faults (windows disjoint, overlapping, nested, identical, adjacent, past the horizon, permanent crash; handles "
+    "FaultSchedule of CrashNode/PauseNode/NetworkPartition(sym/asym)/InjectLatency/InjectPacketLoss/ReduceCapacity "
+    "faults (0-10; windows disjoint, overlapping, nested, identical, adjacent, past the horizon, permanent crash; handles "
     "cancelled before construction / after construction / during the run / never) passed to Simulation(fault_schedule=); "
-    "scenario classes: fault-free, clean (no known trigger possible), only:<trigger> (exactly one of overlap, inflight, "
-    "server, precancel, capbusy, capwait allowed), mixed; non-trivial = at least one repo fault event fired and at least one "
+    "scenario classes: fault-free, general (none of the still-recorded triggers possible), only:<trigger> (exactly one of "
+    "server = queue-fronted crash target, capbusy = grants held at a capacity-window start, capoverlap = overlapping "
+    "ReduceCapacity windows), mixed; non-trivial = at least one repo fault event fired and at least one "
     "observation (job, grant or probe) was judged strictly inside an active window; distinct = distinct delivery digests"
 )
 STATE_MEASURE = "distinct (key kind : multiset of fault kinds simultaneously active on one key) combinations observed at a delivery, per scenario class"
@@ -83,13 +87,19 @@ EXPECTED_PROBES = [
     "fault.partition.deactivate", "fault.latency.activate", "fault.latency.deactivate", "fault.loss.activate",
     "fault.loss.deactivate", "fault.capacity.reduce", "fault.capacity.restore",
     "probe.overlap.partial", "probe.overlap.nested", "probe.overlap.identical", "probe.overlap.adjacent",
-    "probe.inflight_process_at_down_start", "probe.queue_backlog_at_down_start", "probe.job_dropped_in_down_window",
+    "probe.queue_backlog_at_down_start", "probe.job_dropped_in_down_window",
     "probe.job_after_window_end", "probe.probe_dropped_by_partition", "probe.probe_dropped_by_loss",
     "probe.latency_added_observed", "probe.asym_reverse_delivered", "probe.cancel_before_construction",
     "probe.cancel_after_construction", "probe.cancel_during_run", "probe.capacity_window_with_grants_held",
     "probe.resource_waiter", "probe.permanent_crash", "probe.window_past_horizon", "probe.activity_on_boundary",
     "probe.job_on_boundary", "probe.probe_sent_on_boundary", "probe.target_matches_twin_outside_windows",
     "probe.bystanders_equal_fault_free_run",
+    # reachable since the fixes of checks/c06.fixed.json were committed
+    "probe.inflight_process_killed_by_down_window", "probe.killed_holder_leaves_grant_outstanding",
+    "probe.overlap_held.node_down_under_two_windows", "probe.overlap_held.node_still_down_after_other_window_ended",
+    "probe.overlap_held.partition_after_other_window_ended", "probe.overlap_held.loss_after_other_window_ended",
+    "probe.overlap_held.latency_under_two_windows", "probe.overlap_held.latency_after_other_window_ended",
+    "probe.waiter_woken_by_capacity_restore", "probe.cancel_before_construction_left_no_trace",
 ]
 
 
@@ -149,8 +159,8 @@ def gen(rng, tier):
     r = rng.random()
     if r < 0.04:
         klass, allow = "fault-free", []
-    elif r < 0.36:
-        klass, allow = "clean", []
+    elif r < 0.54:
+        klass, allow = "general", []
     elif r < 0.84:
         x = TRIGGERS[rng.randrange(len(TRIGGERS))]
         klass, allow = f"only:{x}", [x]
@@ -169,11 +179,9 @@ def gen(rng, tier):
     pool = ["plain", "gen", "server", "holder"]
     for _ in range(rng.randint(0, 3)):
         kinds.append(rng.choice(pool))
-    if "inflight" in allow and not ({"gen", "holder"} & set(kinds)):
-        kinds.append(rng.choice(("gen", "holder")))
     if "server" in allow and "server" not in kinds:
         kinds.append("server")
-    if ("capbusy" in allow or "capwait" in allow) and "holder" not in kinds:
+    if ("capbusy" in allow or "capoverlap" in allow) and "holder" not in kinds:
         kinds.append("holder")
     rng.shuffle(kinds)
     nodes = []
@@ -210,9 +218,7 @@ def gen(rng, tier):
     sc["net"] = net
 
     # ---- faults
-    node_targets = [i for i, n in enumerate(nodes) if n["kind"] == "plain"
-                    or (n["kind"] in ("gen", "holder") and "inflight" in allow)
-                    or (n["kind"] == "server" and "server" in allow)]
+    node_targets = [i for i, n in enumerate(nodes) if n["kind"] != "server" or "server" in allow]
     holders = [i for i, n in enumerate(nodes) if n["kind"] == "holder"]
     kinds_avail = []
     if node_targets:
@@ -224,21 +230,23 @@ def gen(rng, tier):
     only = klass[5:] if klass.startswith("only:") else None
     faults = []
     groups: dict = {}
-    n_f = 0 if klass == "fault-free" else rng.randint(1, 8)
-    allow_overlap = "overlap" in allow
+    n_f = 0 if klass == "fault-free" else rng.randint(1, 10)
     for j in range(n_f):
         k = rng.choice(kinds_avail)
-        if only == "overlap" and faults and rng.random() < 0.7:
-            k = rng.choice(faults)["kind"]
-        elif only in ("capbusy", "capwait") and rng.random() < 0.6:
+        if faults and rng.random() < 0.35:
+            k = rng.choice(faults)["kind"]      # same kind again: makes overlapping windows on one key likely
+        elif only in ("capbusy", "capoverlap") and rng.random() < 0.6:
             k = "capacity"
         f = {"kind": k}
+        allow_overlap = k != "capacity" or "capoverlap" in allow
         if k in ("crash", "pause"):
-            pref = [i for i in node_targets if nodes[i]["kind"] != "plain"] if only in ("inflight", "server") else []
-            f["node"] = rng.choice(pref if pref and rng.random() < 0.8 else node_targets)
+            pref = [i for i in node_targets if nodes[i]["kind"] == "server"] if only == "server" else \
+                [x["node"] for x in faults if x["kind"] in ("crash", "pause")]
+            f["node"] = rng.choice(pref if pref and rng.random() < (0.8 if only == "server" else 0.5) else node_targets)
             g = ("node", f["node"])
         elif k == "capacity":
-            f["node"] = rng.choice(holders)
+            same = [x["node"] for x in faults if x["kind"] == "capacity"]
+            f["node"] = rng.choice(same if same and "capoverlap" in allow and rng.random() < 0.7 else holders)
             f["factor"] = rng.choice((0.25, 0.5, 0.5, 0.75, 0.3, 0.6, 0.9))
             g = ("cap", f["node"])
         elif k == "partition":
@@ -270,16 +278,21 @@ def gen(rng, tier):
         f["start_ms"], f["end_ms"] = win
         groups.setdefault(g, []).append(win)
         c = rng.random()
-        if only == "precancel" and c < 0.5:
-            f["cancel"] = "pre"
-        elif c < 0.74:
+        if c < 0.74:
             f["cancel"] = "never"
         else:
-            modes = ["post", "mid"] + (["pre"] if "precancel" in allow else [])
-            f["cancel"] = rng.choice(modes)
+            f["cancel"] = rng.choice(("pre", "post", "mid"))
             if f["cancel"] == "mid":
                 f["cancel_ms"] = rng.randint(0, f["start_ms"] - 1)
         faults.append(f)
+    if "capbusy" not in allow:
+        # a crashed holder's process dies holding its grant (documented crash semantics): that is "grants held at a
+        # capacity-window start" by another route, so a holder gets node faults or capacity faults, not both
+        for i in holders:
+            if any(f["kind"] == "capacity" and f["node"] == i for f in faults) and \
+                    any(f["kind"] in ("crash", "pause") and f["node"] == i for f in faults):
+                drop = ("capacity",) if rng.random() < 0.5 else ("crash", "pause")
+                faults[:] = [f for f in faults if not (f["kind"] in drop and f["node"] == i)]
     sc["faults"] = faults
 
     # ---- holder parameters depend on the capacity faults (amounts never exceed the smallest reduced capacity)
@@ -295,11 +308,12 @@ def gen(rng, tier):
             n["co_hold_us"] = int(n["co_period_us"] * rng.choice((0.4, 0.9, 1.6)))
         else:
             # avoidance: nothing is ever held at a window start and nobody ever waits
-            if lim < 2 and "capwait" not in allow:
+            wait_regime = rng.random() < 0.5
+            if lim < 2 and not wait_regime:
                 for f in cf:
                     faults.remove(f)
                 cf, lim = [], n["cap"]
-            if "capwait" in allow and cf and n["cap"] - lim >= 1:
+            if wait_regime and cf and n["cap"] - lim >= 1:
                 # nothing held at a window start, but inside the window the two holders do not fit together
                 n["amount"] = lim
                 n["co_amount"] = rng.randint(1, min(lim, n["cap"] - lim))
@@ -350,13 +364,34 @@ def _static_probes(w: FaultWorld, c: dict) -> None:
                     mm = m[0] if isinstance(m, list) else m
                     first.setdefault(mm, t)
                     last[mm] = t
-                if any(first[m] < s < last[m] for m in first):
-                    c["probe.inflight_process_at_down_start"] = 1
-            elif kind == "server":
+                done = {(m[0] if isinstance(m, list) else m) for t, what, m in lg
+                        if what == "emit" and (kind == "holder" or (isinstance(m, list) and m[1] == "end"))}
+                span = (sum(x[0] for x in ent.steps) if kind == "gen" else int(ent.hold_s * 1e6)) * 1000
+                for m in first:
+                    if first[m] < s and m not in done and first[m] + span > s and not w.tl.is_boundary(key, first[m]):
+                        # entered before the window, never finished: the process died with its node
+                        c["probe.inflight_process_killed_by_down_window"] = 1
+                        if kind == "holder" and w.held(ent.res.name) > 0:
+                            c["probe.killed_holder_leaves_grant_outstanding"] = 1
+        for s, e, *_ in w.tl.w[key]:
+            if kind == "server":
                 accepted = sum(1 for m, t in w.job_times[name].items() if t < s and not w.tl.active(key, t))
                 entered = sum(1 for t, what, m in lg if what == "enter" and t < s)
                 if accepted - entered >= 1:
                     c["probe.queue_backlog_at_down_start"] = 1
+
+
+def _restore_probes(w: FaultWorld, c: dict) -> None:
+    for key, ws in w.tl.w.items():
+        if key[0] != "cap":
+            continue
+        ends = {x[1] for x in ws}
+        idx = key[1][2:]
+        for name in (f"t{idx}", f"ct{idx}"):
+            ent_t = {m: t for t, what, m in w.logs.get(name, ()) if what == "enter"}
+            for t, what, m in w.logs.get(name, ()):
+                if what == "resume" and isinstance(m, list) and m[1] == "acq" and t in ends and ent_t.get(m[0], t) < t:
+                    c["probe.waiter_woken_by_capacity_restore"] = 1
 
 
 def _bystander_category(w: FaultWorld, name: str) -> str:
@@ -411,6 +446,9 @@ def run(sc):
         else:
             counters["probe.bystanders_equal_fault_free_run"] = 1
     _static_probes(w, counters)
+    _restore_probes(w, counters)
+    if status == "ok" and sig is None and any(f.get("cancel") == "pre" for f in sc["faults"]):
+        counters["probe.cancel_before_construction_left_no_trace"] = 1
     h = hashlib.blake2b(digest_size=12)
     h.update(w.mon.digest.encode())
     h.update(w.log_digest().encode())
